@@ -12,9 +12,9 @@ CLAIMED = {
    note="Does NOT decide agreement itself (joint histories of several nodes under an adversarial scheduler, quorum intersection across nodes, amnesia restarts): no static argument in reach composes per-node path facts into that. " + A, ref="4/C01"),
  "C02": dict(technique="guard + quorum-atom analysis, ownership and provenance rules",
    text="ProcessBlock/ProcessPreBlock have one call site each, proven to be behind an M-of-N quorum counted over current-view entries of the per-validator table with all transactions present; stores into per-validator tables are keyed by the payload's own validator index; PrevHash/BlockIndex come from the ledger callbacks, Timestamp/Nonce/TransactionHashes only from the admitted proposal or the proposal builder; transactions filled in proposal order.",
-   note="Does not decide that Block.Verify is a sound signature check, nor the re-validation of early (pre)commits (see DESIGN.md D6: DEADCALL rule not armed yet), nor callback contracts. " + A, ref="4/C02"),
+   note="Does not decide that Block.Verify is a sound signature check, nor callback contracts. The re-validation of early (pre)commits is decided by D-REVALIDATE, whose two reports on the pinned tree are the known finding D6 (known_findings.json). " + A, ref="4/C02"),
  "C03": dict(technique="typed send-site guard analysis (all paths), ownership",
-   text="Every typed broadcast site is behind its 'not said yet' guard on every path from every API entry; own Commit/PreCommit constructed only with an empty own slot; commit tables cleared only by the height reset; ChangeView sends and view changes behind the commit lock; view monotone; epoch fields owned by the epoch writer; recovery builder re-sends stored payloads only.",
+   text="Every typed broadcast site is behind its 'not said yet' guard on every path from every API entry; own Commit/PreCommit constructed only with an empty own slot; commit tables cleared only by the height reset; ChangeView sends and view changes behind the commit lock; view monotone; epoch fields owned by the epoch writer; recovery builder re-sends stored payloads only; an own (pre)commit / preparation is stored only with the proposal recorded (L1-OBL).",
    note="Not decided: identity of a commit after a peer's recovery compaction, uniqueness across process restarts, own-signature verification failure. " + A, ref="4/C03"),
  "C04": dict(technique="guard + quorum-atom + must-precede (event) analysis",
    text="Stores of received preparations are behind their admission condition; a PrepareResponse is built only with the proposal recorded, all transactions present, after the block verifier returned true, naming the stored proposal's hash; (pre)commit only behind an M-of-N current-view preparation quorum containing the request; mismatching responses are purged; view change only behind an M-of-N ChangeView quorum.",
@@ -32,30 +32,30 @@ CLAIMED = {
    text="Decides only structural necessary conditions named by the anchors: every kind of early payload is kept (whatever the node's own state) and replayed on every initialisation, the cache is created only by Start and the entered height is removed; the header is built only after the pre-block; mismatching early responses are purged when the proposal is stored; every initialisation arms the timer.",
    note="That all nodes decide in view 0 without timeouts depends on timer values and multi-node schedules: not applicable to static analysis and not claimed. " + A, ref="4/C08"),
  "C10": dict(technique="must-pass-through over enumerated paths with callee summaries, ownership/provenance of the timer epoch",
-   text="Inductive argument with static obligations: epoch fields written only by the epoch writer; Timer.Reset only from one wrapper with the current (BlockIndex, ViewNumber); every initialiser path arms after the epoch write; every admitted timeout path re-arms; durations are non-negative by construction where measured quantities are subtracted.",
+   text="Inductive argument with static obligations: epoch fields written only by the epoch writer; Timer.Reset only from one wrapper with the current (BlockIndex, ViewNumber); every initialiser path arms after the epoch write; every admitted timeout path re-arms; durations are non-negative by construction where measured quantities are subtracted and every duration handed to the timer is built from configured durations and the timer's own clock.",
    note="Not decided: adequacy/overflow of durations for large views, mis-configured max<min block time (A10), that the injected timer fires. " + A, ref="4/C10"),
  "C12": dict(technique="stale-derived-value analysis, must-pass-through, rejection-set check",
    text="An index derived from MissingTransactions is never used after a call that may rewrite the list; completing a proposal on a backup ends in a PrepareResponse or a ChangeView; OnTransaction rejects deliveries only for the allowed reasons; RequestTx receives the missing list.",
    note="Not decided: double deliveries, deliveries for a previous view's proposal beyond the rejection set, timing against the view timer. " + A, ref="4/C12"),
 
  "C09": dict(technique="sibling agreement (recovery builder/consumer), must-pass-through on enumerated paths",
-   text="Structural necessary conditions of recovery: the recovery message carries every evidence table (commits once the node has its own), the handler consumes every payload getter of the RecoveryMessage interface through OnReceive, LastChangeViewPayloads is refreshed on a view change, every admitted timeout says something or is an extension deferral and re-arms, a node with an own (pre)commit always answers a recovery request.",
-   note="Progress, bounds on the deciding view, partitions, restarts and the responder-window arithmetic need multi-node timed executions: not applicable to static analysis and not claimed. " + A, ref="4/C09"),
+   text="Structural necessary conditions of recovery: the recovery message carries every evidence table (commits once the node has its own), the handler consumes every payload getter of the RecoveryMessage interface through OnReceive, LastChangeViewPayloads is refreshed on a view change from the table as it was before the reset cleared it, a ChangeView for a view not above the receiver's reaches the recovery-request handler, the responder window is F+1 consecutive indices after the requester modulo N, every admitted timeout says something or is an extension deferral and re-arms, a node with an own (pre)commit always answers a recovery request.",
+   note="Progress, bounds on the deciding view, partitions and restarts need multi-node timed executions: not applicable to static analysis and not claimed. " + A, ref="4/C09"),
  "C11": dict(technique="effect-free-prefix guard rule, index provenance with backward demand, optional-callback guards, stale-index analysis",
    text="In each handler every effect site is behind that handler's admission condition (so inadmissible and duplicate inputs reach no effect); every index into a per-validator table is a range key, an admitted sender index, MyIndex under MyIndex>=0 or the primary index; optional callbacks only under their enabling fact; stored slots dereferenced only when non-nil; no stale derived index.",
    note="Panic freedom is decided for table indexing, optional callbacks, stale indices and slot derefs only - not for nil results of application callbacks, type assertions in payload implementations, division by a zero increment, misuse before Start, Logger policies. Equality of the whole state on accepted-duplicate paths is not decided. " + A, ref="4/C11"),
  "C15": dict(technique="symbolic final-value + path-condition check of the max idiom, affine normal form of the truncation, provenance",
-   text="On every non-declining path of the proposal builder Timestamp is the maximum of lastBlockTimestamp+TimestampIncrement and the truncated clock (decided from path conditions and the symbolic final value), the truncation has normal form (UnixNano(Timer.Now()) div I)*I, lastBlockTimestamp comes only from the initialiser's parameter, hashes/transactions are copied from the pool result index by index, NewPrepareRequest receives (Timestamp, Nonce, TransactionHashes), and the own block is rebuilt from those fields after every epoch write.",
+   text="On every non-declining path of the proposal builder Timestamp is the maximum of lastBlockTimestamp+TimestampIncrement and the truncated clock (decided from path conditions and the symbolic final value), the truncation has normal form (UnixNano(Timer.Now()) div I)*I, lastBlockTimestamp comes only from the initialiser's parameter, hashes/transactions are copied from the pool result index by index, NewPrepareRequest receives (Timestamp, Nonce, TransactionHashes), the own block is rebuilt from those fields after every epoch write, and the per-view proposal fields are dropped on every view change (closed-world table of Context fields).",
    note="Not decided: sanity of the clock reading, uniqueness of the nonce, uint64 overflow. " + A, ref="4/C15"),
  "C16": dict(technique="guard rules and flag typestate on the dynamic-block-time paths",
-   text="Structural clauses only: subscription callback/MaxTimePerBlock only when configured; one subscription wrapper; flag cleared by request sends and epoch writes; declining builder is effect-free and declines only when configured, unforced and with an empty pool; no ChangeView for an idle backup on its first view-0 timeout; OnNewTransaction forces only while subscribed with the timer's epoch.",
+   text="Structural clauses only: subscription callback/MaxTimePerBlock only when configured; one subscription wrapper; flag cleared by request sends and epoch writes; declining builder is effect-free and declines only when configured, unforced and with an empty pool; no ChangeView for an idle backup on its first view-0 timeout; OnNewTransaction forces only while subscribed with the timer's epoch; the idle deadline is measured from the block-start reference the epoch writer stores.",
    note="Every timing clause (minimum spacing of proposals, 'only once the maximum elapsed', promptness) depends on numeric relations between durations, RTT and the clock: not applicable and not claimed. " + A, ref="4/C16"),
 
  "C17": dict(technique="client typestate / provenance rules on the example program",
    text="The simulation's event loop re-initialises the library after a processed block (from the loop, under a block-processed condition, not from inside the ProcessBlock callback); ledger callbacks return what ProcessBlock stores; OnTimeout gets the timer's own epoch; the timer channel is re-read each iteration; every required option is supplied; the reference block/payload constructors receive the context fields in their roles; plus the library/timer preconditions its liveness relies on (per-view state dropped on every view change, immediate-expiry channel drained before a send, timeouts and initialisations re-arm).",
    note="Goroutine schedules, block interval and agreement between simulated nodes are run-time behaviour of a concurrent program: not applicable and not claimed. " + A, ref="4/C17"),
  "C18": dict(technique="path enumeration with symbolic field values on package timer (provenance, must-pass-through, affine form)",
-   text="Structural clauses of the bundled timer: Height()/View() report what Reset stored from its parameters; Reset stores start, duration, height, view on every path; C() selects the channel by whether a runtime timer is armed; sends on the immediate channel are drained first and only for a zero duration; Extend accumulates unconditionally, re-arms for total-elapsed from the stored start under total>elapsed and never leaves a pending expiry disarmed; NewTimer only after stop.",
+   text="Structural clauses of the bundled timer (private field roles are derived from Reset/Height/View and the field types on every run): Height()/View() report what Reset stored from its parameters; Reset stores start, duration, height, view on every path; C() selects the channel by whether a runtime timer is armed; sends on the immediate channel are drained first and only for a zero duration; Extend accumulates unconditionally, re-arms for total-elapsed from the stored start under total>elapsed and never leaves a pending expiry disarmed; NewTimer only after stop.",
    note="'Never early', 'within tolerance' and 'stale expiry never delivered' are real-time properties of time.Timer and channel races: not applicable to static analysis and not claimed. " + A, ref="4/C18"),
  "C19": dict(technique="encoder/decoder field agreement on enumerated paths, gob exported-field rule, constructor role tables, reconstruction agreement",
    text="For every type with EncodeBinary/DecodeBinary each wire field is read by the encoder and assigned by the decoder on every successful path; gob structs have only exported fields; decoders propagate every error; the recovery message packs every kind and each Get* reconstruction uses the kind, body type and list of its arm and copies every body field, stamping the rebuilt proposal with the primary index; Payload.Hash is Hash256 of the unsigned encoding; block Hash/Sign/Verify feed GetHashData without the signature; constructors use every parameter in its role; ECDSA Sign/Verify digest alike; Merkle parents hash left||right.",
@@ -70,7 +70,7 @@ CLAIMED = {
    ref="4/C13"),
  "C14": dict(
    technique="who-may-call (types.Func identity) + value provenance of time.Time",
-   text="O-NO-WALLCLOCK: no function of package dbft references time.Now/Since/Until/After/AfterFunc/Tick/NewTimer/NewTicker/Sleep (calls or method values). P-INSTANT: every time.Time stored in state and every UnixNano() that becomes a timestamp originates in Config.Timer.Now(), and instants are combined only by shift-equivariant operations.",
+   text="O-NO-WALLCLOCK: no function of package dbft references time.Now/Since/Until/After/AfterFunc/Tick/NewTimer/NewTicker/Sleep (calls or method values). P-INSTANT: every time.Time stored in state and every UnixNano() that becomes a timestamp originates in Config.Timer.Now(), and instants are combined only by shift-equivariant operations. A-TIMESTAMP / O-NO-DURATION-SRC: the proposal timestamp and every duration given to the timer are built from the injected clock and configured durations only.",
    note="Decides that time enters only through the injected timer (the structural cause of clock-shift invariance). The equality of two whole shifted runs is a consequence and is not re-established by running anything; the random nonce is not time. " + A,
    ref="4/C14"),
 }
